@@ -17,15 +17,16 @@ REP = [D(1, 1, 1), D(0, 1, 1), D(1, 1, 2), D(1, 2, 2), D(0, 1, 2), D(2, 2, 2), D
 
 def build_tree(mb: ModelBuilder, spec: Any, name: str = "root", look_alike: bool = False) -> AObj:
     """spec: list of relations; relation = (min, max, [child specs]); child spec = same list.
-    look_alike: sibling names differ only in letter case, pairwise (a, A, b, B, ...): legal, distinct names."""
+    look_alike: sibling names differ only in letter case or in a leading / trailing blank (a, A, "a ", " a", b, ...):
+    legal, distinct names."""
     f = mb.feature(name)
     k = 0
     for i, (lo, hi, kids) in enumerate(spec):
         ch = []
         for j, kid in enumerate(kids):
             if look_alike:
-                letter = chr(ord("a") + k // 2)
-                cname = f"{name}.{letter.upper() if k % 2 else letter}"
+                letter = chr(ord("a") + k // 4)
+                cname = f"{name}." + (letter, letter.upper(), letter + " ", " " + letter)[k % 4]
             else:
                 cname = f"{name}.{i}.{j}"
             k += 1
@@ -44,13 +45,19 @@ TREES: dict[str, Any] = {
 }
 # sibling names that differ only in case: a mandatory beside an optional look-alike, two look-alike group
 # members that are both variation points, look-alike leaves at different depths
-LOOK_ALIKE = [(1, 1, [[(1, 1, [[]]), (0, 1, [[]])]]), (0, 1, [[]]),
-              (1, 1, [[(0, 1, [[]])], [(1, 2, [[], []])]])]
+LOOK_ALIKE = [(1, 1, [[(0, 1, [[]])]]),            # a   mandatory, itself a variation point
+              (0, 1, [[(1, 2, [[], []])]]),        # A   optional, a variation point with two variants
+              (1, 1, [[]]),                        # "a " mandatory leaf
+              (0, 1, [[]]),                        # " a" optional leaf
+              (1, 1, [[(0, 1, [[]])], [(1, 2, [[], []])]])]   # b / B: group members, both variation points
 
 
 def tree_models(mb: ModelBuilder) -> dict[str, AObj]:
     ms = {k: mb.model(build_tree(mb, spec), []) for k, spec in TREES.items()}
     ms["look-alike-names"] = mb.model(build_tree(mb, LOOK_ALIKE, "root", True), [])
+    # the same kind of tree built the way the FaMa XML reader builds it: empty relations filled child by child
+    inc = ModelBuilder(mb.pm, style="incremental")
+    ms["built-incrementally"] = inc.model(build_tree(inc, TREES["bushy"]), [])
     return ms
 
 
